@@ -1,7 +1,7 @@
 // U-sched: the scheduler core under contract (C01-C06, C08, C15, C16, C19 function-level parts).
 //@@ unit U-sched
 //@@ default props=C02 rewrites=R1,R2,R3,R5,R13 ghost="Tracked(h): Tracked<&mut Heap>" ghostarg="Tracked(h)" loopinv="h.wf(), fwd(*old(h), *h)," bodyprelude="broadcast use {lemma_fwd_refl, lemma_fwd_trans};" attr="#[verifier::exec_allows_no_decreases_clause] #[verifier::loop_isolation(false)]"
-//@@ heapmethods state set_state set_err err children children_in next parent siblings task set_task sched_task emit_task_event emit_proc_event eval init run review error exec is_ready emit_task emit_error create_task push root set_data flag set_flag prev start_time update_data outputs is_event_processed prepare is_auto_complete abort_task back_task undo_task redo_task action set_action get_var get_var_or_default dispatch_act backs backs_step create_context set_message_with update arm_cancel do_action
+//@@ heapmethods state set_state set_err err children children_in next parent siblings task set_task sched_task emit_task_event emit_proc_event eval init run review error exec is_ready emit_task emit_error create_task push root set_data flag set_flag prev start_time update_data outputs is_event_processed prepare is_auto_complete abort_task back_task undo_task redo_task action set_action get_var get_var_or_default dispatch_act backs backs_step create_context set_message_with update arm_cancel do_action dispatch time_millis hooks_snapshot flag_or_false run_hooks_by run_hooks
 use vstd::prelude::*;
 use std::sync::Arc;
 verus! {
@@ -37,6 +37,10 @@ impl Task {
                 forall|t: Tid| t != self.id@ && old(h).has(t) ==> final(h).tasks[t] == old(h).tasks[t],
     { unimplemented!() }
 }
+// Context::sched_task: one new task in state None on `node`, hanging off the current task, pushed to the queue
+pub open spec fn sched_spec(h: Heap, node: Arc<Node>, n: Tid) -> Heap {
+    Heap { tasks: h.tasks.insert(n, fresh_task(node, Some(h.cur), h.next_seq)), queue: h.queue.push(n), next_seq: h.next_seq + 1, ..h }
+}
 impl Context {
 //@@ extract file=acts/src/scheduler/context.rs in="impl Context" item="fn sched_task" name=Context::sched_task props=C02,C04
 //@@ rw R7 `Some ( self . task ( ) )` => `Some(self.task())`
@@ -46,7 +50,9 @@ impl Context {
             //# D-sched-fwd
             final(h).wf() && fwd(*old(h), *final(h)) && final(h).cur == old(h).cur,
             //# D-sched-one-new-task
-            exists|n: Tid| !old(h).has(n) && #[trigger] final(h).tasks == old(h).tasks.insert(n, fresh_task(*node, Some(old(h).cur), old(h).next_seq)) && final(h).queue == old(h).queue.push(n),
+            exists|n: Tid| !old(h).has(n) && #[trigger] sched_spec(*old(h), *node, n) == *final(h),
+//@@ proof after=push#1
+        proof { assert(sched_spec(*old(h), *node, task.id@) == *h); }
 //@@ end
 //@@ extract file=acts/src/scheduler/context.rs in="impl Context" item="fn emit_task" name=Context::emit_task props=C02,C03,C08
 //@@ rw R7 `self . runtime . scher ( )` => `self.runtime.scher()`
@@ -229,6 +235,80 @@ impl Task {
             forall|i: int| 0 <= i < __v2@.len() ==> (#[trigger] __v2@[i]).id@ != self.id@,
             //# self-untouched
             h.tasks[self.id@] == old(h).tasks[self.id@] && h.cur == old(h).cur,
+//@@ end
+}
+
+impl Act {
+//@@ extract file=acts/src/scheduler/process/task/act.rs in="impl Act" item="fn dispatch" name=Act::dispatch props=C16
+//@@ rw R7 `act . inputs . set ( $K , v )` => `act.inputs.set_any($K, v)`
+//@@ spec
+        requires old(h).wf()
+        ensures
+            //# G-dispatch-fwd
+            final(h).wf() && fwd(*old(h), *final(h)) && final(h).cur == old(h).cur && ret is Ok,
+            //# G-dispatch-existing-unchanged
+            forall|x: Tid| #[trigger] old(h).has(x) ==> final(h).tasks[x] == old(h).tasks[x],
+//@@ end
+}
+impl Vars {
+    // R7: Vars::set with a non-JSON value type (serde conversion of the value: not modelled)
+    #[verifier::external_body]
+    pub fn set_any<K: KeyLike, V>(&mut self, key: K, value: V) ensures final(self)@.dom() == old(self)@.dom().insert(key.k()) { unimplemented!() }
+}
+
+// what a batch may assume about the task it runs on (kept by the hook registration in Step::init / Act::init):
+// catches hang on steps and acts only (never on the root task)
+pub open spec fn batch_pre(b: StatementBatch, h: Heap) -> bool {
+    &&& (b is Catch ==> h.tasks[h.cur].node.s_kind() == NodeKind::Step || h.tasks[h.cur].node.s_kind() == NodeKind::Act)
+    &&& (b is Timeout ==> parse_limit(b->Timeout_0.on@) is Ok ==> limit_small(parse_limit(b->Timeout_0.on@)->Ok_0))
+}
+pub open spec fn timeout_flag(t: TaskAbs, on: Seq<char>) -> bool {
+    t.flags.dom().contains(consts::IS_TIMEOUT_PROCESSED_PREFIX@ + on) && t.flags[consts::IS_TIMEOUT_PROCESSED_PREFIX@ + on]
+}
+impl StatementBatch {
+//@@ extract file=acts/src/scheduler/process/task/hook.rs in="impl StatementBatch" item="fn run" name=StatementBatch::run props=C06,C19,C02,C16
+//@@ rw R6 `$T:chain . with_data ( | data | data . get :: < bool > ( $K ) ) . unwrap_or_default ( )` => `$T.flag_or_false($K)`
+//@@ rw R6 `task . set_data_with ( | data | data . set ( $K , true ) )` => `task.set_flag($K, true)`
+//@@ rw R7 `& err . ecode == c . on . as_ref ( ) . unwrap ( )` => `str_eq(&err.ecode, c.on.as_ref().unwrap())`
+//@@ rw R7 `format ! ( "{}{}" , consts :: IS_TIMEOUT_PROCESSED_PREFIX , t . on )` => `timeout_key(&t.on)`
+//@@ spec
+        requires old(h).wf(), batch_pre(*self, *old(h))
+        ensures
+            //# S-batch-fwd
+            final(h).wf() && fwd(*old(h), *final(h)),
+            //# E3-no-error-no-effect
+            self is Catch && old(h).tasks[old(h).cur].err is None ==> *final(h) == *old(h),
+            //# E3-catch-runs-once
+            self is Catch && catch_flag(old(h).tasks[old(h).cur]) ==> *final(h) == *old(h),
+            //# E3-non-matching-catch-changes-nothing
+            self is Catch && old(h).tasks[old(h).cur].err is Some && self->Catch_0.on is Some && self->Catch_0.on->Some_0@ != old(h).tasks[old(h).cur].err->Some_0.ecode@ ==> *final(h) == *old(h),
+            //# E3-matching-catch-takes-the-error
+            self is Catch && ret is Ok && old(h).tasks[old(h).cur].err is Some && !catch_flag(old(h).tasks[old(h).cur])
+                && (self->Catch_0.on is None || self->Catch_0.on->Some_0@ == old(h).tasks[old(h).cur].err->Some_0.ecode@)
+                ==> final(h).tasks[old(h).cur].revived == 1 && catch_flag(final(h).tasks[old(h).cur]),
+            //# W1-fires-once
+            self is Timeout && timeout_flag(old(h).tasks[old(h).cur], self->Timeout_0.on@) ==> *final(h) == *old(h),
+            //# W1-never-early
+            self is Timeout && final(h).queue.len() > old(h).queue.len() ==> parse_limit(self->Timeout_0.on@) is Ok
+                && old(h).now - old(h).tasks[old(h).cur].start_time >= limit_secs(parse_limit(self->Timeout_0.on@)->Ok_0) * 1000,
+            //# W1-fires-when-due
+            self is Timeout && ret is Ok && !timeout_flag(old(h).tasks[old(h).cur], self->Timeout_0.on@) && parse_limit(self->Timeout_0.on@) is Ok
+                && old(h).now - old(h).tasks[old(h).cur].start_time >= limit_secs(parse_limit(self->Timeout_0.on@)->Ok_0) * 1000
+                ==> timeout_flag(final(h).tasks[old(h).cur], self->Timeout_0.on@)
+                    && final(h).queue.len() == old(h).queue.len() + n_children_in(old(h).links_rev, *old(h).tasks[old(h).cur].node, NodeOutputKind::Timeout, Some(self->Timeout_0.on@)).len(),
+            //# W1-firing-does-not-close-the-task
+            self is Timeout ==> final(h).st(old(h).cur) == old(h).st(old(h).cur),
+            //# W1-only-open-tasks
+            self is Timeout && st_terminal(old(h).st(old(h).cur)) ==> final(h).queue == old(h).queue,
+//@@ loop 1
+        invariant
+            //# catch-steps-scheduled
+            h.cur == old(h).cur && h.links_rev == old(h).links_rev && h.tasks[h.cur].revived == 1,
+//@@ loop 2
+        invariant
+            //# timeout-steps-scheduled
+            h.cur == old(h).cur && h.links_rev == old(h).links_rev && h.queue.len() == old(h).queue.len() + __i2
+                && h.tasks[h.cur] == (TaskAbs { flags: h.tasks[h.cur].flags, ..old(h).tasks[old(h).cur] }) && timeout_flag(h.tasks[h.cur], t.on@),
 //@@ end
 }
 
